@@ -8,7 +8,7 @@ From GA.Gen Require Import Subst.
 From GA.Spec Require Import Local EDNAFULL.
 From GA.Spec Require LocalEnum.
 From GA.Model Require Import SW.
-From GA.Proofs Require Import SWProofs SubstProofs EnumProofs GotohProofs TracebackProofs.
+From GA.Proofs Require Import SWProofs SubstProofs EnumProofs GotohProofs TracebackProofs OptimalProofs OptimalAlign.
 Local Open Scope Z_scope.
 
 (* The validity checker evaluated (in the kernel) on every alignment returned by
@@ -161,15 +161,52 @@ Theorem C09_aligner_returns_valid_alignment :
 Proof. exact align_pair_valid. Qed.
 Print Assumptions C09_aligner_returns_valid_alignment.
 
-(* What remains a statement: the returned rows score exactly r_score and r_score is the Gotoh optimum, for all inputs.
-   Proved for the specification side (C09_gotoh_is_optimal, C09_gotoh_is_attained); for the code model it is the
-   finite theorems above and the per-case oracle of Corr/C09.v. *)
-Definition C09_aligner_optimal_statement : Prop :=
+(* The score reported by the CODE MODEL is the optimum, for EVERY scheme with open <= extend < 0 (and open above the
+   sentinel -10^9 of the specification) and EVERY pair of sequences: it equals the value of the three-matrix Gotoh program
+   of the specification (Proofs/OptimalProofs.v: cell by cell, the value of a cell of the code - first row and column with
+   their gap accumulators, inner cells with the per-column accumulators and the running bx, clamped at 0 - is max(0, best of
+   the three Gotoh states), each accumulator lies between the Gotoh gap state and max(that state, open), and the recorded
+   maximum over the raw scores is the maximum over the match states) ... *)
+Theorem C09_aligner_score_is_gotoh :
   forall sc s1 s2 r,
-  sc_open sc <= sc_extend sc -> sc_extend sc < 0 -> s1 <> [] -> s2 <> [] ->
-  sc_use_matrix sc = false -> align_pair false sc s1 s2 = Some r ->
-  let sub := fun a b => if beqb a b then sc_match sc else sc_mismatch sc in
-  r_score r = gotoh_best sub (sc_open sc) (sc_extend sc) s1 s2.
+  sc_open sc <= sc_extend sc -> sc_extend sc < 0 -> NEG <= sc_open sc ->
+  align_pair false sc s1 s2 = Some r ->
+  r_score r = gotoh_best (sub_of sc (pick_matrix s1 s2)) (sc_open sc) (sc_extend sc) s1 s2.
+Proof. exact align_pair_score_optimal. Qed.
+Print Assumptions C09_aligner_score_is_gotoh.
+
+(* ... hence no valid local alignment of the two sequences scores more than the code model reports (with
+   C09_gotoh_is_optimal), and the reported score is 0 or the score of some valid local alignment (C09_gotoh_is_attained;
+   the characters of the scoring alphabets are never the gap character) *)
+Theorem C09_aligner_score_is_optimal :
+  forall sc s1 s2 r r1 r2 st1 st2 en1 en2,
+  sc_open sc <= sc_extend sc -> sc_extend sc < 0 -> NEG <= sc_open sc ->
+  align_pair false sc s1 s2 = Some r ->
+  valid_alignment s1 s2 r1 r2 st1 st2 en1 en2 ->
+  score_cols (sub_of sc (pick_matrix s1 s2)) (sc_open sc) (sc_extend sc) r1 r2 0 <= r_score r.
+Proof.
+  intros sc s1 s2 r r1 r2 st1 st2 en1 en2 H1 H2 H3 H4 H5.
+  rewrite (align_pair_score_optimal sc s1 s2 r H1 H2 H3 H4).
+  exact (gotoh_dominates _ _ _ H1 H2 s1 s2 r1 r2 st1 st2 en1 en2 H5).
+Qed.
+Print Assumptions C09_aligner_score_is_optimal.
+
+(* What remains a statement: the rows RETURNED by the trace-back score exactly the reported score (they are valid:
+   C09_aligner_returns_valid_alignment); it is proved on the finite domains above and judged per case by Corr/C09.v. *)
+Definition C09_aligner_rows_score_statement : Prop :=
+  forall sc s1 s2 r,
+  sc_open sc <= sc_extend sc -> sc_extend sc < 0 -> align_pair false sc s1 s2 = Some r -> 0 < r_score r ->
+  score_cols (sub_of sc (pick_matrix s1 s2)) (sc_open sc) (sc_extend sc) (r_row1 r) (r_row2 r) 0 = r_score r.
+
+(* the pair on which the thorough tier caught the border of the matrix forgetting a gap (repaired by 5506dd8): FW against
+   WFFCYHHWH, BLOSUM62, open -3, extend -1/2: the optimum 12.5 = F----W / FCYHHW, and the code model reaches it *)
+Example C09_first_row_gap :
+  let sc := mkscheme true 0 0 (-6) (-1) in
+  let s1 := [x46; x57] in
+  let s2 := [x57; x46; x46; x43; x59; x48; x48; x57; x48] in
+  option_map r_score (align_pair false sc s1 s2) = Some 25 /\
+  option_map r_row1 (align_pair false sc s1 s2) = Some [x46; x2d; x2d; x2d; x2d; x57].
+Proof. split; vm_compute; reflexivity. Qed.
 
 Example C09_nonvacuous :
   let sc := mkscheme false 2 (-2) (-20) (-1) in
